@@ -1,12 +1,13 @@
 #!/bin/sh
 # usage: soak.sh <first-seed> <last-seed> [props...]  -- THOROUGH checks over several seeds on the unchanged tree (scratch Coq tree / evidence)
+VH="$(cd "$(dirname "$0")/.." && pwd)"   # this copy of /verif (a vp-run snapshot works too)
 A=$1; B=$2; shift 2
 PROPS="${*:-C01 C02 C03 C04 C06 C07 C08 C09 C18 C19 C10 C11 C12 C13 C14 C15 C16 C17 C20 C05}"
 CQ=/tmp/soak.$$.coq; EV=/tmp/soak.$$.ev
-cp -a /verif/coq $CQ
+cp -a $VH/coq $CQ
 for s in $(seq $A $B); do
   for p in $PROPS; do
-    out=$(cd /verif && VERIF_SEED=$s VERIF_COQ=$CQ VERIF_EVIDENCE=$EV ./check $p --tier thorough 2>&1); rc=$?
+    out=$(cd "$VH" && VERIF_SEED=$s VERIF_COQ=$CQ VERIF_EVIDENCE=$EV ./check $p --tier thorough 2>&1); rc=$?
     [ $rc -ne 0 ] && { echo "seed=$s $p exit=$rc"; echo "$out" | grep -E "VIOLATION|Traceback|Error" | head -3; mkdir -p /tmp/soak_keep; for f in $EV/replay/${p}_*; do cp $f /tmp/soak_keep/s${s}_$(basename $f) 2>/dev/null; done; }
   done
   echo "seed $s done"
